@@ -45,9 +45,17 @@ def split_lm(obs):
     return obs[:m.start()] + obs[m.end():], m.group(1)
 
 
+def _cls(tok, col):
+    """type class of a key shape (first letter) or of a value (int or one of the special values)"""
+    if col == 0:
+        return tok[0]
+    return "i" if re.fullmatch(r"-?\d+", tok) else tok
+
+
 def stale_key_pattern(impl_lm, spec_lm):
-    """The range macro's key variable kept an earlier key of ANOTHER type (mdef ignores the
-    'cannot assign' error of the typed rebinding); values and length agree with the content."""
+    """The range macro's key (or value) variable kept its earlier binding because the new one has
+    ANOTHER type (mdef ignores the 'cannot assign' error of the typed rebinding); length agrees
+    with the content and every entry is either the right one or the stale previous binding."""
     if impl_lm in ("!", "#") or spec_lm in ("!", "#"):
         return False
     a = [p.split("=") for p in impl_lm.split("|")] if impl_lm else []
@@ -55,15 +63,16 @@ def stale_key_pattern(impl_lm, spec_lm):
     if len(a) != len(b) or any(len(p) != 2 for p in a + b):
         return False
     stale = False
-    for i, (x, y) in enumerate(zip(a, b)):
-        if x[1] != y[1]:
-            return False
-        if x[0] == y[0]:
-            continue
-        # stale = the previous binding; the rejected key has another type (arrays are typed by their elements)
-        if i == 0 or x[0] != a[i - 1][0] or (x[0][0] == y[0][0] and x[0][0] != "A"):
-            return False
-        stale = True
+    for col in (0, 1):
+        for i in range(len(a)):
+            x, y = a[i][col], b[i][col]
+            if x == y:
+                continue
+            # stale = the previous binding; the rejected one has another type (arrays are typed by their elements)
+            same_type = _cls(x, col) == _cls(y, col) and not (col == 0 and x[0] == "A")
+            if i == 0 or x != a[i - 1][col] or same_type:
+                return False
+            stale = True
     return stale
 
 
